@@ -11,7 +11,7 @@ import io
 
 from ..monitors import contracts
 from ..monitors.framehook import LineLocalsHook
-from ..monitors.reach import Reach
+from ..monitors.reach import Reach, opt
 
 ID = "C10"
 RULE = (
@@ -360,12 +360,12 @@ def run(shard, rec, rng):
 
     hook = Hook(W)
     reach = Reach(rec, {
-        "MultipartDecoder.receive_data": vars(W["M"].MultipartDecoder)["receive_data"],
-        "MultipartDecoder.next_event": W["M"].MultipartDecoder.next_event,
-        "FormDataParser._parse_urlencoded": W["FP"].FormDataParser._parse_urlencoded,
-        "FormDataParser._parse_multipart": W["FP"].FormDataParser._parse_multipart,
-        "get_input_stream": wsgi.get_input_stream,
-        "Request.make_form_data_parser": W["Request"].make_form_data_parser,
+        "MultipartDecoder.receive_data": opt(lambda: vars(W["M"].MultipartDecoder)["receive_data"]),
+        "MultipartDecoder.next_event": opt(lambda: W["M"].MultipartDecoder.next_event),
+        "FormDataParser._parse_urlencoded": opt(lambda: W["FP"].FormDataParser._parse_urlencoded),
+        "FormDataParser._parse_multipart": opt(lambda: W["FP"].FormDataParser._parse_multipart),
+        "get_input_stream": opt(lambda: wsgi.get_input_stream),
+        "Request.make_form_data_parser": opt(lambda: W["Request"].make_form_data_parser),
     })
     cfg = TIERS[shard["_tier"]]
     for i in range(cfg["parser"]):
